@@ -106,6 +106,8 @@ class EngineD:
         q.ack = ack  # type: ignore[method-assign]
         q._sim_ack_patched = True
 
+    prefer: Any = None      # optional callable(rows) -> index of the row to deliver next, or None for the seeded choice
+
     def deliverable(self) -> list[Any]:
         return self.w.hquery(DELIVERABLE_SQL, {"max_attempts": self.w.queue.max_attempts})
 
@@ -174,7 +176,10 @@ class EngineD:
                 self.res.lapses += 1
                 rows = self.deliverable()
         idx = 0
-        if len(rows) > 1 and o.reorder_p > 0 and ch.flip("reorder", o.reorder_p):
+        pref = self.prefer(rows) if self.prefer is not None and len(rows) > 1 else None
+        if pref is not None:
+            idx = pref          # a check directs this delivery (still one of the deliverable rows: a legal schedule)
+        elif len(rows) > 1 and o.reorder_p > 0 and ch.flip("reorder", o.reorder_p):
             if o.stale_bias and ch.flip("stale", 0.5):
                 idx = min(range(len(rows)), key=lambda i: rows[i]["id"])
             else:
